@@ -89,6 +89,7 @@ TYPES = {'int': int, 'str': str, 'list': list, 'dict': dict, 'tuple': tuple, 'fl
 class Builder:
     def __init__(self, G, k, shared=None, on_nested=None, eager_render=True):
         self.G, self.k = G, k
+        self.arg_literals = {}    # id(list/dict passed in argument position) -> description
         self.nodes = {}
         self.keep = []
         self.idmap = {}
@@ -197,6 +198,8 @@ class Builder:
             self._reg(r, obj)
             obj._items.extend(self.value(x) for x in v)
             return obj
+        if t == 'simnum':
+            return self._reg(r, collab.SimNum(self.k, self._sim_id(r), v))
         if t == 'SKIP':
             return G.SKIP
         if t == 'STOP':
@@ -206,6 +209,15 @@ class Builder:
         if t == 'slice':
             return slice(*v)
         raise ValueError(f'unknown value recipe {r!r}')
+
+    def arg_value(self, r, where):
+        """a value in argument position (defaults, call arguments, S(...) values): glom rebuilds plain
+        list/dict containers there, so the very object passed in must never come back in a result"""
+        v = self.value(r)
+        if type(v) in (list, dict):
+            self.keep.append(v)
+            self.arg_literals[id(v)] = where
+        return v
 
     # ------------------------------------------------------------------ callables
     def func(self, name):
@@ -312,7 +324,8 @@ class Builder:
                 cur = cur[self.value(arg)]
             elif op == '(':
                 a, kw = arg
-                cur = cur(*[self.value(x) for x in a], **{k_: self.value(x) for k_, x in kw.items()})
+                cur = cur(*[self.arg_value(x, 'T() argument') for x in a],
+                          **{k_: self.arg_value(x, 'T() / S() keyword value') for k_, x in kw.items()})
             elif op == 'x':
                 cur = cur.__star__()
             elif op == 'X':
@@ -374,7 +387,7 @@ class Builder:
             kw = {}
             o = r[2] if len(r) > 2 and r[2] else {}
             if 'default' in o:
-                kw['default'] = self.value(o['default'])
+                kw['default'] = self.arg_value(o['default'], 'Coalesce default')
             if 'default_factory' in o:
                 kw['default_factory'] = self.callable_(o['default_factory'])
             if 'skip' in o:
@@ -409,19 +422,19 @@ class Builder:
         if kind in ('Or', 'And'):
             kw = {}
             if len(r) > 2 and r[2] is not None and 'default' in r[2]:
-                kw['default'] = self.value(r[2]['default'])
+                kw['default'] = self.arg_value(r[2]['default'], kind + ' default')
             return getattr(G, kind)(*[S(x) for x in r[1]], **kw)
         if kind == 'Not':
             return G.Not(S(r[1]))
         if kind == 'Switch':
             kw = {}
             if len(r) > 2 and r[2] is not None and 'default' in r[2]:
-                kw['default'] = self.value(r[2]['default'])
+                kw['default'] = self.arg_value(r[2]['default'], 'Switch default')
             return G.Switch([(S(a), S(b)) for a, b in r[1]], **kw)
         if kind == 'Match':
             kw = {}
             if len(r) > 2 and r[2] is not None and 'default' in r[2]:
-                kw['default'] = self.value(r[2]['default'])
+                kw['default'] = self.arg_value(r[2]['default'], 'Match default')
             return G.Match(S(r[1]), **kw)
         if kind == 'Check':
             o = dict(r[2] or {})
